@@ -285,6 +285,8 @@ def gen_solution(ctx, db, prim, pos, num):
     txt = "SOLUTION %d\n temp %s\n pH %s%s\n pe %s\n units %s\n" % (num, tc, ph, " charge" if adjust == "charge:pH" else "", pe, unit)
     if couple_default:
         txt += " redox %s\n" % couple
+        # every redox element that is finally entered as a total (also those added by the adjustments above) uses it
+        couple_elements = [c[0] for c in comps if "(" not in c[0] and redox_states(db, c[0])]
     for e, c, opt in comps:
         txt += " %s %.6g %s\n" % (e, c * fac, opt)
     meta = {"tc": tc, "ph": ph, "pe": pe, "units": unit, "elements": [c[0] for c in comps], "valence_input": valence_input, "adjust": adjust,
